@@ -223,7 +223,7 @@ def w_small(idx):
 POOL = ["", " ", "a", "ä", "漢字", "😀", "\ud800", "a\"b\\c", "<&>", "\n\t", "\x00", "x" * 40, "null", "0", "{}", "[]", "é́", " ",
         # text that looks like JSON syntax (a loader that tidies the RAW text would reach inside string literals)
         "[A, B, C, ]", "{\"reps\": 5,}", " ,}", ",]", "\",", "\\\"", "// c", "/* c */", "\\u0041", "NaN", "Infinity", "\\n", "{\"a\": [1, 2,], }", "'single'", "\t,\t]",
-        "true", "1e999", "-0", "\u2028", "\ufeff"]
+        "true", "1e999", "-0", "\u2028", "\ufeff", "a\r\nb", "\r\n", "\r", "\n\r", "line1\r\nline2\r\n", "\x0b\x0c", "\x85"]
 
 
 def rtext(rnd):
